@@ -270,6 +270,34 @@ fn index_probe(store: &mut GraphStore, dumped: &DumpG) -> Option<String> {
     None
 }
 
+/// both adjacency directions and the counters against the dumped relationship list
+fn adjacency_probe(store: &GraphStore, d: &DumpG) -> Option<String> {
+    use samyama::graph::NodeId;
+    if store.node_count() != d.nodes.len() {
+        return Some(format!("node_count() = {} but {} nodes are listed", store.node_count(), d.nodes.len()));
+    }
+    if store.edge_count() != d.rels.len() {
+        return Some(format!("edge_count() = {} but {} relationships are listed", store.edge_count(), d.rels.len()));
+    }
+    for (id, _, _) in &d.nodes {
+        let mut out: Vec<u64> = store.get_outgoing_edges(NodeId::new(*id)).iter().map(|e| e.id.as_u64()).collect();
+        let mut inc: Vec<u64> = store.get_incoming_edges(NodeId::new(*id)).iter().map(|e| e.id.as_u64()).collect();
+        out.sort();
+        inc.sort();
+        let mut want_out: Vec<u64> = d.rels.iter().filter(|r| r.1 == *id).map(|r| r.0).collect();
+        let mut want_in: Vec<u64> = d.rels.iter().filter(|r| r.2 == *id).map(|r| r.0).collect();
+        want_out.sort();
+        want_in.sort();
+        if out != want_out {
+            return Some(format!("node {}: outgoing adjacency {:?}, relationship list {:?}", id, out, want_out));
+        }
+        if inc != want_in {
+            return Some(format!("node {}: incoming adjacency {:?}, relationship list {:?}", id, inc, want_in));
+        }
+    }
+    None
+}
+
 fn constraints(store: &mut GraphStore) -> String {
     match exec(store, "SHOW CONSTRAINTS", None).rows {
         Ok(rows) => rows_text(&rows),
@@ -354,6 +382,60 @@ fn gen_multi(_rng: &mut Rng, fam: u64, constrained: bool, m: usize, j: usize, ki
     Planted { setup, st: St { cls, ret: None }, clause, kind, pos, n, constrained, indexed, after, modelled: !constrained && fam != 1 }
 }
 
+/// What exactly a failing row had already made: CREATE of 1-3 relationships per row between nodes that
+/// existed before the statement (both bound by MATCH), between a bound and a new node (both directions), self
+/// loops; the failing expression sits in a relationship's own property (after literal ones), in the k-th
+/// relationship, or in a later node.  `pat` selects the pattern, (n, pos) the rows.
+fn gen_rel(rng: &mut Rng, pat: u64, n: usize, pos: usize) -> Planted {
+    let mut setup: Vec<String> = vec!["CREATE (v1:L0 {k0: 1})-[:T0]->(v2:L0 {k0: 2})".into()];
+    let ids: Vec<i64> = (0..n as i64).map(|i| 300 + i).collect();
+    for (i, id) in ids.iter().enumerate() {
+        // a pair (:L1)-[:T0]->(:L2); the :L1 end carries the divisor (0 on the failing row)
+        setup.push(format!("CREATE (:L1 {{k0: {}, k2: {}, k5: {}}})-[:T0 {{k0: {}}}]->(:L2 {{k0: {}, k2: {}, k5: 2}})", id, id, if i == pos { 0 } else { 3 }, id, id + 50, id));
+    }
+    let fail = bin("div", int(12), Ex::Prop(1, 5));
+    let b = |v: u32| NPat { var: Some(v), labels: vec![], props: vec![] };
+    let rel = |a: NPat, props: Vec<(u32, Ex)>, out: bool, c: NPat| CPath { a, seg: Some((1, props, out, c)) };
+    let lit = |rng: &mut Rng| vec![(0u32, int(rng.range(1, 9)))];
+    let (paths, clause): (Vec<CPath>, &'static str) = match pat {
+        0 => (vec![rel(b(1), { let mut p = lit(rng); p.push((1, fail.clone())); p }, true, b(2))], "createrel-bound-bound"),
+        1 => (vec![rel(b(2), { let mut p = lit(rng); p.push((1, fail.clone())); p }, true, b(1))], "createrel-bound-bound"),
+        2 => (vec![rel(b(1), vec![(1, fail.clone())], false, b(2))], "createrel-bound-bound"),
+        3 => (vec![rel(b(1), vec![(1, fail.clone())], true, b(1))], "createrel-selfloop"),
+        4 => (vec![rel(b(1), lit(rng), true, b(2)), rel(b(2), vec![(1, fail.clone())], true, b(1))], "createrel-second-of-2"),
+        5 => (vec![rel(b(1), lit(rng), true, b(2)), rel(b(2), lit(rng), true, b(1)), rel(b(1), { let mut p = lit(rng); p.push((1, fail.clone())); p }, true, b(2))], "createrel-third-of-3"),
+        6 => (vec![rel(b(1), vec![(1, fail.clone())], true, NPat { var: Some(3), labels: vec![2], props: vec![(0, int(9))] })], "createrel-bound-new"),
+        7 => (vec![rel(NPat { var: Some(3), labels: vec![2], props: vec![(0, int(9))] }, vec![(1, fail.clone())], true, b(1))], "createrel-new-bound"),
+        8 => (vec![rel(b(1), vec![(1, fail.clone())], false, NPat { var: Some(3), labels: vec![2], props: vec![(0, int(9))] })], "createrel-bound-new"),
+        9 => (vec![rel(b(1), lit(rng), true, b(2)), CPath { a: NPat { var: Some(3), labels: vec![2], props: vec![(0, fail.clone())] }, seg: None }], "createrel-then-node"),
+        _ => (vec![rel(b(1), lit(rng), true, b(2)), rel(b(2), vec![(1, bin("div", Ex::Prop(2, 5), Ex::Prop(1, 5)))], true, b(1))], "createrel-second-of-2"),
+    };
+    let st = St {
+        cls: vec![
+            Cl::Unwind(Ex::List(ids.iter().map(|i| int(*i)).collect()), 0),
+            Cl::MatchR(1, vec![1], 5, 0, 2, vec![2]),
+            Cl::Filter(bin("eq", Ex::Prop(1, 2), Ex::Var(0))),
+            Cl::Create(paths),
+        ],
+        ret: None,
+    };
+    Planted { setup, st, clause, kind: Kind::Div0, pos, n, constrained: false, indexed: false, after: vec![], modelled: true }
+}
+
+/// CREATE without any row source (CreateNodeOperator / CreateNodesAndEdgesOperator): the one "row" makes several
+/// things; a unique-constraint refusal on a LATER node must take back the earlier ones
+fn gen_rowless(which: u64) -> Planted {
+    let setup: Vec<String> = vec!["CREATE CONSTRAINT ON (n:L0) ASSERT n.k0 IS UNIQUE".into(), "CREATE (:L0 {k0: 1})".into()];
+    let n0 = |k: i64| NPat { var: None, labels: vec![0], props: vec![(0, int(k))] };
+    let (paths, clause): (Vec<CPath>, &'static str) = match which {
+        0 => (vec![CPath { a: n0(5), seg: None }, CPath { a: n0(5), seg: None }], "rowless-create-2nodes"),
+        1 => (vec![CPath { a: n0(6), seg: Some((1, vec![], true, n0(1))) }], "rowless-create-path"),
+        2 => (vec![CPath { a: n0(7), seg: None }, CPath { a: n0(8), seg: None }, CPath { a: n0(1), seg: None }], "rowless-create-3nodes"),
+        _ => (vec![CPath { a: n0(1), seg: None }, CPath { a: n0(9), seg: None }], "rowless-create-first-fails"),
+    };
+    Planted { setup, st: St { cls: vec![Cl::Create(paths)], ret: None }, clause, kind: Kind::Dup, pos: 0, n: 1, constrained: true, indexed: false, after: vec![("CREATE (:L0 {k0: 5})".into(), true)], modelled: false }
+}
+
 struct Done {
     p: Planted,
     text: String,
@@ -376,7 +458,7 @@ fn run_case(p: Planted) -> Done {
     let o = exec(&mut store, &text, None);
     let post = dump(&store);
     let cons_post = constraints(&mut store);
-    let mut probe = parse_dump(&post).and_then(|d| index_probe(&mut store, &d));
+    let mut probe = parse_dump(&post).and_then(|d| index_probe(&mut store, &d).or_else(|| adjacency_probe(&store, &d)));
     if probe.is_none() && o.rows.is_err() {
         for (a, must_succeed) in &p.after {
             let r = exec(&mut store, a, None).rows;
@@ -504,6 +586,17 @@ fn main() {
                 }
             }
         }
+        // relationships between pre-existing nodes etc.: pattern x (rows, failing row)
+        for pat in 0..11u64 {
+            for (n, pos) in [(1usize, 0usize), (3, 0), (3, 2), (2, 1)] {
+                let d = run_case(gen_rel(&mut rng, pat, n, pos));
+                flat.push(Flat { setup: d.p.setup.join("; "), term: d.p.st.model(), text: d.text, clause: d.p.clause.to_string(), kind: d.p.kind.tag().to_string(), pos: d.p.pos, pre: d.pre, post: d.post, out: d.out, probe: d.probe, cons_same: d.cons_same, modelled: d.p.modelled });
+            }
+        }
+        for which in 0..4u64 {
+            let d = run_case(gen_rowless(which));
+            flat.push(Flat { setup: d.p.setup.join("; "), term: d.p.st.model(), text: d.text, clause: d.p.clause.to_string(), kind: d.p.kind.tag().to_string(), pos: d.p.pos, pre: d.pre, post: d.post, out: d.out, probe: d.probe, cons_same: d.cons_same, modelled: d.p.modelled });
+        }
         // multi-item clauses: family x item count x failing item x failure kind x (rows, failing row)
         for fam in 0..4u64 {
             for m in 2..=4usize {
@@ -537,7 +630,7 @@ fn main() {
             }
         }
         rep.exhaustive = true;
-        rep.exhaustive_note = "every (write shape of 15) x (1..4 input rows) x (failing row position) is planted in each repetition; the non-failing row values are random; plus every multi-item clause (SET / SET += / ON CREATE SET / ON MATCH SET) x 2..4 items x failing item position x {div0, type, unbound variable} x {single row, first of 3, last of 3}".into();
+        rep.exhaustive_note = "every (write shape of 15) x (1..4 input rows) x (failing row position) is planted in each repetition; the non-failing row values are random; plus 11 relationship-creation patterns between pre-existing / new nodes x 4 row layouts, 4 row-less multi-pattern CREATEs under a unique constraint, and every multi-item clause (SET / SET += / ON CREATE SET / ON MATCH SET) x 2..4 items x failing item position x {div0, type, unbound variable} x {single row, first of 3, last of 3}".into();
     }
 
     let mut lines = vec![];
@@ -591,18 +684,18 @@ fn main() {
             rep.spec_violation(&known, &format!("no-error:{}:{}", f.clause, f.kind), &format!("`{}` answered OK although row {} must fail ({})", f.text, f.pos, f.kind), &body);
             continue;
         }
+        if sv != "ok" {
+            let sig = format!("partial:{}:{}:{}", f.clause, f.kind, if f.pos == 0 { "first-row" } else { "row>first" });
+            rep.count(&format!("spec_violation:{}", sig));
+            rep.spec_violation(&known, &sig, &format!("`{}` failed ({:?}) at row {} and left {} (was {})", f.text, f.out, f.pos, f.post, f.pre), &body);
+        }
         if let Some(p) = &f.probe {
-            rep.spec_violation(&known, &format!("index-diverges:{}:{}", f.clause, f.kind), &format!("after the failed `{}`: {}", f.text, p), &body);
+            rep.spec_violation(&known, &format!("store-probe-diverges:{}:{}", f.clause, f.kind), &format!("after the failed `{}`: {}", f.text, p), &body);
             continue;
         }
         if !f.cons_same {
             rep.spec_violation(&known, &format!("constraints-changed:{}:{}", f.clause, f.kind), &format!("constraint list changed by the failed `{}`", f.text), &body);
             continue;
-        }
-        if sv != "ok" {
-            let sig = format!("partial:{}:{}:{}", f.clause, f.kind, if f.pos == 0 { "first-row" } else { "row>first" });
-            rep.count(&format!("spec_violation:{}", sig));
-            rep.spec_violation(&known, &sig, &format!("`{}` failed ({:?}) at row {} and left {} (was {})", f.text, f.out, f.pos, f.post, f.pre), &body);
         }
         // R vs M: what is left behind must be what the streaming model leaves
         if f.modelled {
